@@ -24,11 +24,16 @@ CHECKS = {
               "parameters, Kombinationen, Variable), printed fully parenthesised AND with minimal parentheses derived from the ladder of "
               "expressions.go, compiled by the working tree's kddp, run, and compared with the evaluator on stdout, exit status and "
               "Laufzeitfehler; disagreements are minimised by statement-level delta debugging and replayable one by one. Eight defects "
-              "found this way were repaired (fix: commits)."),
+              "found this way were repaired (fix: commits). The precedence ladder of src/parser/expressions.go is REGENERATED on every "
+              "run (per rung: rungs called, loop tokens, operand rungs inside the loop, rebinding vs returning loop body, operators built) "
+              "and 11 theorems state it is the documented one: rung order, ten left-associative chains whose operands all come from the "
+              "next tighter rung, each of 36 operators built on its rung and no looser one, prefix forms, the shape of falls / hoch / unary. "
+              "Further fixed matrices: every loop form x jumps observing counter/index/element (296 programs), equality of Kommazahlen per holder."),
         note=TB + "The code generator, LLVM and libc are reached by correspondence only (partial): instruction selection, "
              "optimisation passes and printf are not modelled. Programs that hit LLVM-undefined operations are not judged. "
-             "No theorem yet relates the parser ladder to the printer (parse_pp) or states type soundness / fuel monotonicity.",
-        technique="Lean 4 proof about a total reference evaluator + differential correspondence of generated programs through the real compiler",
+             "No theorem yet relates a parser model to the printer (parse_pp: the ladder is tied by T-gen, not verified) or states type soundness / fuel monotonicity. "
+             "Known finding: Kommazahlen held in Variablen compare by bytes.",
+        technique="Lean 4 proof about a total reference evaluator and over the regenerated precedence ladder + differential correspondence of generated programs through the real compiler",
         ref="§5 C01",
     ),
     "C02": dict(
@@ -93,10 +98,21 @@ CHECKS = {
               "block} x temporaries of five non-primitive kinds in header, condition and body; early return from nested scopes; "
               "short-circuit, conditional expressions, discarded results, Variable boxing, fields, character assignment, Laufzeitfehler "
               "midway; the aliasing matrix of C08; random programs — each with the ledger (no contract violation, nothing live at "
-              "normal exit) and under ASan/UBSan/LSan. Seven heap defects found with this machinery were repaired (fix: commits)."),
-        note=TB + "The code generator's ownership bookkeeping (scopes, temporaries, claim-or-copy) is not modelled: it is reached through "
-             "the programs only (partial). Memory obtained outside ddp_reallocate is outside the ledger; ASan's verdict is trusted.",
-        technique="Lean 4 proof about the heap-contract state machine + the same machine linked into compiled programs, both run on the same traces; sanitizers",
+              "normal exit) and under ASan/UBSan/LSan. Seven heap defects found with this machinery were repaired (fix: commits). "
+              "Second model, DDP.Own (lean/DDP/Impl/Own.lean): the code generator's compile-time ownership bookkeeping for the fragment whose "
+              "values are Texte — latestIsTemp, scope.temporaries/variables, claimOrCopy, claimTemporary (current scope only), exitScope, "
+              "exitNestedScopes on Verlasse/Fahre fort, the releases in front of a return, caller-copies/callee-frees, sub-scopes of "
+              "short-circuited operands — as a compiler from function bodies to abstract code (fromConst/copy/free/move/concat/equal/call over "
+              "slots in seq/choice/loop/brk/cont/ret) and an abstract machine over the set of owning slots. Theorem fn_balanced (induction "
+              "over expressions, conditions and, mutually, statements and statement lists; loops by induction on fuel): for EVERY well-scoped "
+              "body and EVERY sequence of branch decisions the compiled code never releases or reads a slot that owns nothing, never "
+              "overwrites an owner, and ends owning nothing but the returned value. Tie: generated bodies (192 systematic loop-in-loop "
+              "nestings with jumps + random) compiled by the real kddp -O 0; the ownership-relevant calls per function in the LLVM IR must "
+              "equal callCounts(compileFn body); a disagreement is re-run under the heap ledger (failing input) or reported as broken tie."),
+        note=TB + "DDP.Own covers Texte only: lists, Kombinationen, Variablen, Referenz parameters, for-each, globals and the -O 2 copy "
+             "elision are reached through the programs only (partial); the tie compares call counts per function, not their order. "
+             "Memory obtained outside ddp_reallocate is outside the ledger; ASan's verdict is trusted.",
+        technique="Lean 4 proofs (heap-contract state machine; ownership model of the code generator: every body, every path) + ledger linked into compiled programs, IR call counts of kddp -O 0 vs the model; sanitizers",
         ref="§5 C05",
     ),
     "C06": dict(
@@ -131,7 +147,7 @@ CHECKS = {
               "runs on every diagnostic without panic, kddp's exit status and object file agree with the flag."),
         note=TB + "The ~110 places that assemble ranges from neighbouring tokens are monitored, not proved (partial); handler swaps "
              "(EvaluateSilent, speculative parsing) are not modelled as a state machine.",
-        technique="Lean 4 proof about the failure flag and the renderer's indexing + monitors on the real front end, renderer and kddp exit status",
+        technique="Lean 4 proof about the failure flag and the renderer's indexing, and over the regenerated inventory of hand-built diagnostics (every one has a level) + monitors on the real front end, renderer and kddp exit status",
         ref="§5 C07",
     ),
     "C08": dict(
@@ -315,10 +331,15 @@ CHECKS = {
               "callee prints what it receives, changes what it gets by Referenz, builds the result; the DDP program prints result and "
               "every argument after the call (value arguments unchanged, Referenz arguments changed). Ownership is judged by the heap "
               "ledger of C05 linked into the program (each non-Referenz argument released exactly once by the caller, the result "
-              "owned by the caller, nothing live at exit) and by AddressSanitizer."),
-        note=TB + "The code generator's lowering of extern declarations is reached by correspondence only; struct layout is the platform "
-             "C ABI; lists of Kombinationen and Variable results are not generated.",
-        technique="Lean 4 proof about the calling-convention function + generated C callees and DDP callers run with the heap ledger and sanitizers",
+              "owned by the caller, nothing live at exit) and by AddressSanitizer. Over facts REGENERATED on every run from "
+              "src/compiler (types.NewStruct calls, *_field_index constants, primitive IR types, the truth table of toIrParamType) and "
+              "from ddptypes.h (typedefs, structs with field order, ...ref typedefs, static_asserts, constants): every primitive has the "
+              "same width and kind on both sides, ddpstring / all 8 list structs / ddpany / the vtable have the same field classes in the "
+              "same order and the code generator's field indices select str/cap, arr/len/cap, vtable_ptr/value; sizes 16/24/24; the "
+              "regenerated toIrParamType table IS passParam of the model for every type (14 theorems by kernel decide)."),
+        note=TB + "The code generator's lowering of extern declarations is reached by correspondence only; field offsets follow from the "
+             "platform C ABI (all fields 8-aligned); lists of Kombinationen and Variable results are not generated.",
+        technique="Lean 4 proof about the calling-convention function and over regenerated layouts (code generator vs ddptypes.h) + generated C callees and DDP callers run with the heap ledger and sanitizers",
         ref="§5 C18",
     ),
     "C19": dict(
